@@ -82,3 +82,21 @@ def linear_use(ctx):
 
     _own(ctx)
     imported(ctx, C07.rule_L1, TreeFx(ctx.prog))
+
+
+# ---------------------------------------------------------------------------------------------------------------
+OUTLIER = ("g", "Tree.OUTLIER_NODE")
+
+
+def tree_vocabulary(atom):
+    """Normal form of the tree editor's synonyms (each justified by the reference semantics TS decides):
+    add_data_point_to_outliers(x) is add_data_point_to_node(x, <outlier node>), remove_data_point_from_outliers(x) is
+    remove_data_point_from_node(x, <outlier node>), and `.outlier_node_name` of any tree is that one reserved name."""
+    from ..termflow import Poly
+
+    if atom[0] == "attr" and atom[2] in ("outlier_node_name", "_OUTLIER_NODE_NAME"):
+        return OUTLIER
+    if atom[0] in ("upd", "mcall") and atom[1] in ("add_data_point_to_outliers", "remove_data_point_from_outliers") and len(atom[3]) == 1 and not atom[4]:
+        name = "add_data_point_to_node" if atom[1].startswith("add") else "remove_data_point_from_node"
+        return (atom[0], name, atom[2], (atom[3][0], Poly.atom(OUTLIER).key()), ())
+    return None
